@@ -92,6 +92,69 @@ def history (line : String) : String :=
     | none => "bad-line"
   | _ => "bad-line"
 
+/-! #### the other indexes: check the reported result of every query against the brute-force filter -/
+
+structure OItem where
+  id : Int
+  b : Box
+  live : Bool
+
+def parseIds (s : String) : List Int := if s == "-" then [] else (s.splitOn ",").filterMap (·.toInt?)
+def parsePairs (s : String) : List (Int × Int) :=
+  if s == "-" then [] else (s.splitOn ",").filterMap fun t => match t.splitOn ":" with
+    | [a, b] => do some (← a.toInt?, ← b.toInt?)
+    | _ => none
+
+/-- exact kinds must return exactly the matching live items; `quad` / `hot` may return extra candidates -/
+partial def otherGo (kind : String) (items : List OItem) : List String → String
+  | [] => "ok"
+  | "I" :: id :: a :: b :: c :: d :: r =>
+    match id.toInt?, a.toInt?, b.toInt?, c.toInt?, d.toInt? with
+    | some id, some a, some b, some c, some d => otherGo kind (items ++ [⟨id, ⟨a, b, c, d⟩, true⟩]) r
+    | _, _, _, _, _ => "bad-op"
+  | "R" :: id :: ok :: r =>
+    match id.toInt? with
+    | some id =>
+      let live := items.any fun it => it.id == id && it.live
+      -- removing a live (envelope, item) pair must succeed; removing a pair that is not live must fail
+      if (ok == "1") != live then s!"bad remove id={id} impl={ok} live={live}" else
+        -- one live entry with that id (and an identical envelope if duplicated) disappears
+        let rec kill : List OItem → List OItem
+          | [] => []
+          | it :: t => if it.id == id && it.live then { it with live := false } :: t else it :: kill t
+        otherGo kind (if live then kill items else items) r
+    | none => "bad-op"
+  | "Q" :: a :: b :: c :: d :: res :: r =>
+    match a.toInt?, b.toInt?, c.toInt?, d.toInt? with
+    | some a, some b, some c, some d =>
+      let oneD := kind == "sir" || kind == "spi"
+      let hit (it : OItem) : Bool :=
+        it.live && (if oneD then decide (a ≤ it.b.maxx) && decide (b ≥ it.b.minx)
+                    else Env.inter (some it.b) (some ⟨a, b, c, d⟩))
+      if kind == "kd" || kind == "hot" then
+        let got := parsePairs res
+        -- hot pixel queries are expanded by one pixel (1/scale = 1): never miss; may return more
+        let want := ((items.filter hit).map fun it => (it.b.minx, it.b.miny)).eraseDups
+        let missed := want.filter (fun w => !got.contains w)
+        let extra := got.filter (fun g => !want.contains g)
+        if !missed.isEmpty then s!"bad {kind} missed {missed}"
+        else if kind == "kd" && !extra.isEmpty then s!"bad kd extra {extra}"
+        else otherGo kind items r
+      else
+        let got := (parseIds res).mergeSort (· ≤ ·)
+        let want := ((items.filter hit).map (·.id)).mergeSort (· ≤ ·)
+        let missed := want.filter (fun w => !got.contains w)
+        if !missed.isEmpty then s!"bad {kind} missed {missed}"
+        else if kind != "quad" && got != want then s!"bad {kind} got {got} want {want}"
+        else otherGo kind items r
+    | _, _, _, _ => "bad-op"
+  | _ => "bad-op"
+
+def other (line : String) : String :=
+  match Driver.tokens line with
+  | "X" :: kind :: _cap :: ops => otherGo kind [] ops
+  | _ => "bad-line"
+
 def slices (line : String) : String :=
   match Driver.tokens line with
   | ["S", cap, n] =>
